@@ -121,7 +121,7 @@ static int cb_init(const uscxml_ctx *c, const uscxml_elem_data *d) { return 0; }
 static int cb_cancel(const uscxml_ctx *c, const char *a, const char *b) { SEQ_PLAIN(a); return 0; }
 static int cb_script(const uscxml_ctx *c, const char *a, const char *b) { SEQ_PLAIN(b); return 0; }
 static int cb_invoke(const uscxml_ctx *c, const uscxml_state *s, const uscxml_elem_invoke *i, unsigned char u) {
-  if (!(c->flags & USCXML_CTX_TOP_LEVEL_FINAL) && !int_last_null) order_bad = "an invocation was started / cancelled although the internal queue had not answered empty";
+  if (!u && !int_last_null) order_bad = "an invocation was started although the internal queue had not answered empty";
   return 0;
 }
 
